@@ -113,7 +113,9 @@ def run_case(case):
         res.sig = f"long-{case['seed']}"
         res.nontrivial = True
         return res
-    kind = "NP2.1" if case.get("_orig_i", case["_i"]) % 2 == 0 else "NP2.4"
+    ci = case.get("_orig_i", case["_i"])
+    kind = "NP2.1" if ci % 2 == 0 else "NP2.4"
+    forced = ci % 8 in (0, 1)        # fixed combination twice per layout and run: flat original, compress=True, one converter object re-used for the forced re-run
     gain = np2.GAIN_PAIRS[int(rng.integers(0, 4))]
     ns = int(rng.integers(2500, 9000))
     if ns % 12 == 0:
@@ -128,8 +130,8 @@ def run_case(case):
     raw = broadband(rng, ns, gain[1], wide=wide)
     wins = [1200, 1800, 2400, 3600, 60000, 12 * int(rng.integers(49, 300))]
     wsel = [1200] + [int(v) for v in rng.choice(wins[1:], 2, replace=False)]
-    compress = rng.random() < 0.25
-    cbin_orig = rng.random() < 0.25
+    compress = rng.random() < 0.25 or forced
+    cbin_orig = rng.random() < 0.25 and not forced
     label0 = f"{kind} gain={gain[0]}/{gain[1]} ns={ns} layout={mode} compress={compress} original={'cbin' if cbin_orig else 'bin'}" + (f" amplitude up to {int(np.max(np.abs(raw[:, :384])))} counts" if wide else "")
     if wide:
         res.count("int16_wide_contents")
@@ -153,7 +155,7 @@ def run_case(case):
             conv.init_params(nwindow=w)
             st = conv.process()
             res.check(st == 1, "lfp:status", f"{label}: process() returned {st}")
-            same_object = bool(rng.integers(0, 2))
+            same_object = bool(rng.integers(0, 2)) or forced
             if w != wsel[-1] or not same_object:
                 conv.sr.close()
             if w == wsel[-1]:
